@@ -138,7 +138,7 @@ class Impl:
         elif kind == "extrude":
             from gscrib.hooks import extrusion_hook
 
-            layer, nozzle, fil = self._extrude_geometry(arg)
+            layer, nozzle, fil = (float(Fraction(x)) for x in arg.split(":"))
             inner = extrusion_hook(layer, nozzle, fil)
 
             def hook(origin, target, params, state):
@@ -149,9 +149,16 @@ class Impl:
         return hook
 
     @staticmethod
-    def _extrude_geometry(arg):
-        # the harness encodes the three geometry parameters in the spec; k is derived from them
-        raise NotImplementedError
+    def model_hook_spec(spec: str) -> str:
+        """`extrude:<layer>:<nozzle>:<filament>` -> `extrude:<k>` with k the exact ratio of the two floats the hook uses."""
+        kind, _, arg = spec.partition(":")
+        if kind != "extrude":
+            return spec
+        layer, nozzle, fil = (float(Fraction(x)) for x in arg.split(":"))
+        radius = fil / 2.0
+        cross_section = math.pi * radius * radius
+        extrusion_area = nozzle * layer
+        return "extrude:" + show(Fraction(extrusion_area) / Fraction(cross_section))
 
     # ---- one operation
     def apply(self, line: str):
@@ -374,6 +381,7 @@ class Impl:
             else:
                 if spec in self.hooks:
                     g.remove_hook(self.hooks[spec])
+            line = f"hook {args[0]} {self.model_hook_spec(spec)}"
         else:
             raise RuntimeError(f"harness: unknown op {op}")
         return line
